@@ -79,7 +79,9 @@ func initform(r *rand.Rand, class, slot, gen int, dirtyNil bool) (string, string
 	if dirtyNil {
 		return "nil", "nil"
 	}
-	switch r.IntN(8) {
+	switch r.IntN(9) {
+	case 8:
+		return "nil", "nil"
 	case 0:
 		return fmt.Sprintf("(+ %d 1)", base), strconv.Itoa(base + 1)
 	case 1:
@@ -95,7 +97,7 @@ func initform(r *rand.Rand, class, slot, gen int, dirtyNil bool) (string, string
 type genOpts struct {
 	n         int
 	sharedArg bool // an initarg named by two different slots (listed finding)
-	nilForm   bool // an :initform nil (listed finding)
+	nilForm   bool // force an :initform nil somewhere (also drawn as an ordinary initform kind)
 	twoArgs   bool // a slot with two initargs, so that both can be supplied (listed finding)
 	redef     bool
 	redefMid  bool
